@@ -166,7 +166,22 @@ func meanStage(r *ev.Run) {
 			nc := ncase{"sample-mean", params, nil}
 			obj := &seqObject{dirs: pixelDirs(cam, c.w, c.h), w: c.w, h: c.h, handed: map[int][]float64{}, origin: cam.Origin}
 			if c.aa != 0 {
-				obj.uncast = cam.Uncaster(float64(c.w)-1, float64(c.h)-1)
+				// the harness's own inverse pinhole model (not the library's Uncaster, which is itself under test in the
+				// camera stage): p = origin + direction; the direction is resolved along the screen axes and the view axis
+				fwd := cam.ScreenX.Cross(cam.ScreenY).Normalize()
+				tn := math.Tan(cam.FieldOfView / 2)
+				sx, sy := 1.0, 1.0
+				if c.w-1 > c.h-1 {
+					sy = float64(c.h-1) / float64(c.w-1)
+				} else if c.h-1 > c.w-1 {
+					sx = float64(c.w-1) / float64(c.h-1)
+				}
+				w1, h1 := float64(c.w-1), float64(c.h-1)
+				obj.uncast = func(p c3) (float64, float64) {
+					d := p.Sub(cam.Origin)
+					a, b, cc := d.Dot(cam.ScreenX), d.Dot(cam.ScreenY), d.Dot(fwd)
+					return (a/cc/(sx*tn) + 1) / 2 * w1, (b/cc/(sy*tn) + 1) / 2 * h1
+				}
 			}
 			img := render3d.NewImage(c.w, c.h)
 			for k := range img.Data {
@@ -185,8 +200,10 @@ func meanStage(r *ev.Run) {
 				continue
 			}
 			if obj.strange > 0 {
-				// the harness could not attribute a ray to a pixel: a machinery problem, not a verdict
-				ev.Fatal("%s: %d rays could not be attributed to a pixel", params, obj.strange)
+				// a primary ray that starts somewhere else than at the camera, or passes through no pixel of the image
+				// (more than half a pixel beyond the outermost pixel centres): a sample of the wrong scene
+				r.Violation("stray-ray/"+name, fmt.Sprintf("%s: %d primary rays do not start at the camera or pass through no pixel of the image (jitter %g of a pixel)", params, obj.strange, c.aa), nc)
+				continue
 			}
 			early := false
 			for idx := 0; idx < c.w*c.h; idx++ {
